@@ -33,7 +33,11 @@ type gcSentinel struct{ _ [16]byte }
 
 // GCNow runs a full collection and returns once every finalizer queued by it has run (a sentinel allocated after the
 // first cycle is collected by a second one; the runtime runs finalizers sequentially in queue order).
+var gcActive atomic.Bool
+
 func GCNow() {
+	gcActive.Store(true)
+	defer gcActive.Store(false)
 	runtime.GC()
 	done := make(chan struct{})
 	s := new(gcSentinel)
@@ -182,6 +186,15 @@ type Run struct {
 	MuteMemo bool
 }
 
+// stepScale widens the default step cap for the statement-granularity build (VERIF_FINE), in which every statement of
+// the instrumented files is a step.
+var stepScale = func() int {
+	if os.Getenv("VERIF_FINE") != "" {
+		return 25
+	}
+	return 1
+}()
+
 // CaseTrace makes NoteCase print; the supervisor sets VERIF_CASE_TRACE for the run that
 // confirms a fatal crash alone, so that the crash can be attributed to a scenario.
 var CaseTrace = os.Getenv("VERIF_CASE_TRACE") != ""
@@ -235,6 +248,9 @@ func hook(op string) {
 	if r.MuteMemo && (op == "lazy.Memoize" || op == "fp.Memoize") {
 		return
 	}
+	if gcActive.Load() {
+		return // library code run by a finalizer during an owned GC cycle: not a task
+	}
 	t := r.currentTask()
 	if t == nil || t.quiet > 0 {
 		return
@@ -271,7 +287,7 @@ func NewReplay(trace []int) *Run {
 func newRun() *Run {
 	noteRunStart()
 	r := &Run{
-		MaxSteps: 20000,
+		MaxSteps: 20000 * stepScale,
 		Probes:   map[string]int{},
 		Faults:   map[string]int{},
 		byGoid:   map[int64]*Task{},
@@ -413,6 +429,11 @@ func (r *Run) Go(name string, f func(t *Task)) *Task {
 	return t
 }
 
+// currentTask: the task the calling goroutine belongs to. Outside the short windows in which a task woken from a
+// library lock runs beside the stepped one, library code runs on the stepped task (or, handed over synchronously, on the
+// coroutine of an iter.Pull it drives) - except during an owned GC cycle, when finalizers run library code on the
+// runtime's finalizer goroutine: hooks reached while gcActive is set are ignored (see hook), they must not park and be
+// resumed in the name of the task that is waiting for the cycle to finish.
 func (r *Run) currentTask() *Task {
 	if r.multi.Load() {
 		id := curGoid()
@@ -485,7 +506,7 @@ func (t *Task) ParkLabel() string { return t.label }
 // ---------------------------------------------------------------- scheduler
 
 // wall-clock bound for one settle; a task that spins is caught earlier by the CPU-time hang monitor (hang.go)
-const watchdog = 5 * time.Minute
+const watchdog = 90 * time.Second
 
 func (r *Run) snapshotTasks() []*Task {
 	r.mu.Lock()
@@ -495,7 +516,23 @@ func (r *Run) snapshotTasks() []*Task {
 	return ts
 }
 
+// dbgRing keeps the scheduler's last actions (printed by the watchdog).
+var dbgRing [256]string
+var dbgN int
+
+func dbg(format string, a ...any) {
+	dbgRing[dbgN%len(dbgRing)] = fmt.Sprintf(format, a...)
+	dbgN++
+}
+
+func dbgDump() {
+	for i := max(0, dbgN-len(dbgRing)); i < dbgN; i++ {
+		fmt.Fprintf(os.Stderr, "sched[%d]: %s\n", i, dbgRing[i%len(dbgRing)])
+	}
+}
+
 func (r *Run) apply(e event) {
+	dbg("event task %d kind %d (state was %d, label %s)", e.t.ID, e.kind, e.t.state, e.t.label)
 	// votes for "durably blocked" count consecutive probes within one stretch of running only
 	e.t.blockVotes = 0
 	switch e.kind {
@@ -573,6 +610,7 @@ func (r *Run) settle() {
 					// confirm with a second probe: a durable block persists
 					t.blockVotes++
 					if t.blockVotes >= 2 {
+						dbg("task %d found blocked (%s)", t.ID, reason)
 						t.state = stBlocked
 						t.blockVotes = 0
 						if os.Getenv("VERIF_DEBUG_BLOCK") != "" {
@@ -584,11 +622,18 @@ func (r *Run) settle() {
 			} else if t.state == stRunning {
 				t.blockVotes = 0
 			} else if t.state == stBlocked {
+				dbg("task %d no longer blocked (reason %q ok=%v)", t.ID, reason, ok)
 				t.state = stRunning // it was woken; wait for its event
 			}
 		}
 		needProbe = false
 		if time.Since(start) > watchdog {
+			buf := make([]byte, 1<<20)
+			fmt.Fprintf(os.Stderr, "watchdog: goroutine dump\n%s\n", buf[:runtime.Stack(buf, true)])
+			for _, t := range ts {
+				fmt.Fprintf(os.Stderr, "watchdog: task %d:%s state=%d label=%s goid=%d\n", t.ID, t.Name, t.state, t.label, t.goid)
+			}
+			dbgDump()
 			harnessPanic("watchdog: a released task neither yields, finishes nor blocks (case %s)", r.Case)
 		}
 	}
@@ -723,6 +768,7 @@ func (r *Run) RunToQuiescence() {
 		}
 		r.last = t
 		r.cur = t
+		dbg("release task %d (state was %d, label %s)", t.ID, t.state, t.label)
 		t.state = stRunning
 		t.blockVotes = 0
 		t.pred = nil
